@@ -94,6 +94,7 @@ type l2World struct {
 	replicas           []*l2Replica
 	recent             [][]byte   // recently broadcast transactions (client traffic re-uses them)
 	planExecs          string     // the executor list installed by the last executor-change plan (printed form)
+	hookOuter *l1Deposit // the deposit a payload is being built for (class nested)
 	lenient            bool       // see l1World
 	sidePct            int        // % of schedule points with client traffic on discarded branches
 	feeBook            []feeEntry // declared fee per tx of the block being executed (C20); nil = fees are zero
@@ -195,6 +196,10 @@ func newL2WorldOpt(r *core.Run, p *l2Profile, fixedBridge uint64, bases []string
 		if i < nex {
 			w.executors = append(w.executors, a.String())
 		}
+	}
+	if r.Chance(1, 4) {
+		// one of the genesis executors is also an ordinary key-holding user of the L2
+		w.executors = append(w.executors, node.KeyAddr(w.keyed[0]).String())
 	}
 	out := node.Addr("outsider")
 	w.users = append(w.users, out)
@@ -310,7 +315,10 @@ func (w *l2World) makeHook(spec *modelL2, to string, dep sdk.Coin) []byte {
 			lbl = k
 		}
 	}
-	class := []string{"good", "good", "good", "failmsg", "badsig", "staleseq", "hungry", "garbage", "unrouted", "wdhook", "wdhook+send", "wdhook+fail"}[w.r.Intn(12)]
+	class := []string{"good", "good", "good", "failmsg", "badsig", "staleseq", "hungry", "garbage", "unrouted", "wdhook", "wdhook+send", "wdhook+fail", "nested"}[w.r.Intn(13)]
+	if class == "nested" && w.hookOuter == nil {
+		class = "good"
+	}
 	wdTail := ""
 	if strings.HasPrefix(class, "wdhook+") {
 		wdTail = strings.TrimPrefix(class, "wdhook+")
@@ -397,6 +405,10 @@ func (w *l2World) makeHook(spec *modelL2, to string, dep sdk.Coin) []byte {
 			hs.Class = "failmsg"
 			hs.Withdraw = nil
 		}
+	case "nested":
+		// re-entrancy: the payload relays the very deposit it travels in (same L1 sequence, same content, no payload)
+		o := w.hookOuter
+		msgs = append(msgs, &opchildtypes.MsgFinalizeTokenDeposit{Sender: signer.String(), From: o.From, To: o.To, Amount: o.Amount, Sequence: o.Seq, Height: o.Height, BaseDenom: o.BaseDenom})
 	case "unrouted":
 		// a message type no handler is registered for on the L2
 		msgs = append(msgs, &ophosttypes.MsgRecordBatch{Submitter: signer.String(), BridgeId: 1, BatchBytes: []byte{1}})
@@ -443,7 +455,9 @@ func (w *l2World) deposit(spec *modelL2, seq uint64) *l1Deposit {
 	}
 	d.Amount = sdk.Coin{Denom: w.l2denom(base), Amount: amt}
 	if w.r.Chance(w.p.Hooks, 100) {
+		w.hookOuter = d
 		d.Data = w.makeHook(spec, to, d.Amount)
+		w.hookOuter = nil
 	}
 	w.deps[seq] = d
 	return d
@@ -618,6 +632,10 @@ func (w *l2World) genOp(spec *modelL2, bc blockCtx) ([]sdk.Msg, string, string) 
 			np.BridgeExecutors = nil
 			for i := 0; i < n; i++ {
 				np.BridgeExecutors = append(np.BridgeExecutors, spell(w.r, node.AddrN("executor", w.r.Intn(4)).String()))
+			}
+			if w.r.Chance(1, 3) {
+				// an executor who is also an ordinary (key-holding) user of the L2
+				np.BridgeExecutors = append(np.BridgeExecutors, node.KeyAddr(w.keyed[w.r.Intn(len(w.keyed))]).String())
 			}
 		case 3:
 			np.Admin = []string{w.admin, w.ustr[0], w.outsider}[w.r.Intn(3)]
